@@ -228,8 +228,7 @@ Definition rr_new_args (dr_len : Z) (xa : bool) : option (Z * Z) :=
 (* what an RRIP reader walks: the record's own area, then the continuation area when a CE entry points to it *)
 Definition visible (r : placed) : list su_entry :=
   entries_list (pl_dr r) ++ (if is_some (ce_record (pl_dr r)) then entries_list (pl_ce r) else []).
-(* the first-pass condition in closed form: everything up to the SL test fits with the uncut symlink,
-   and the rest fits after what the loop really put into the record (sl_in_dr) *)
+(* the first-pass condition in closed form (without symlink: the sum of the static lengths fits) *)
 Definition opt_len (b : bool) (l : Z) : Z := if b then l else 0.
 Definition er_len (v : rrv) : Z := len_er (er_id (er_of v)) (er_des (er_of v)) (er_src (er_of v)).
 Definition px_len (v : rrv) : Z := match len_px v with Some l => l | None => 0 end.
@@ -239,16 +238,20 @@ Definition before_sl (i : place_in) : Z :=
 Definition after_sl (i : place_in) : Z :=
   len_tf TF_FLAGS + opt_len (p_child i) len_link + opt_len (p_reloc i) len_re
   + opt_len (p_parent i) len_link + opt_len (p_first i) (er_len (p_v i)).
-(* what _new_symlink adds to curr_dr_len on the first pass *)
-Definition sl_in_dr (i : place_in) : Z :=
+(* with a symlink: _new_symlink (without CE entry) must accept at curr_dr_len = before_sl -- it does iff
+   before_sl + RRSLRecord.length(split) <= 254, RRPlaceSLProofs.sl_stage_no_ce -- and what it really put into
+   the record (sl_in_dr) plus the rest must fit *)
+Definition sl_in_dr (i : place_in) : option Z :=
   match sl_stage false (target_of i) (before_sl i, 0) with
-  | Some (_, (cur, _)) => cur - before_sl i
-  | None => 0
+  | Some (_, (cur, _)) => Some (cur - before_sl i)
+  | None => None
   end.
 Definition first_fit (i : place_in) : bool :=
   if nonempty (target_of i)
-  then (before_sl i + len_sl (LongNames.split_slash (target_of i)) <=? ALLOWED_DR_SIZE)
-       && (before_sl i + sl_in_dr i + after_sl i <=? ALLOWED_DR_SIZE)
+  then match sl_in_dr i with
+       | Some l => before_sl i + l + after_sl i <=? ALLOWED_DR_SIZE
+       | None => false
+       end
   else before_sl i + after_sl i <=? ALLOWED_DR_SIZE.
 
 (* ---- checker for the external harness -------------------------------------------------------- *)
